@@ -1,120 +1,2 @@
-(* GenEqFSpatial.v — the float64 helpers of common/spatial (vector3.go matrix3.go point3.go line3.go quat.go), common.AlmostEqual and the functions of
-   gonum's spatial/r3 they call, regenerated from the Go source (generated/GeneratedFS.v, struct values as tuples) = C20's hand-written binary64 models
-   (VecF.v). [tv], [tq], [tm] turn the models' records into the tuples of the generated side. The proofs open the records and are conversion
-   ([reflexivity]), or the generic [gen_feq]-style case split where the generated side duplicates a continuation. math.Hypot, Sin, Cos are the
-   fields m_hypot, m_sin, m_cos of the record GeneratedF.libm; math.Sqrt is PrimFloat.sqrt; math.NaN() is nan.
-   Not regenerated: UniqueAppend, MaxPoint, MinPoint (slices of pointers, range loops). *)
-From Coq Require Import ZArith Bool Floats.
-From SIDGen Require Import GeneratedF GeneratedFS.
-From SID Require Import F64 VecF GenFTac.
-Open Scope float_scope.
-
-Definition tv (v : fvec) : float * float * float := (fx v, fy v, fz v).
-Definition tq (q : fquat) : float * float * float * float := (fqw q, fqx q, fqy q, fqz q).
-Definition tm (a : fmat) : (float * float * float) * (float * float * float) * (float * float * float) :=
-  ((f00 a, f01 a, f02 a), (f10 a, f11 a, f12 a), (f20 a, f21 a, f22 a)).
-
-Ltac open_records :=
-  repeat match goal with
-         | v : fvec |- _ => destruct v
-         | q : fquat |- _ => destruct q
-         | a : fmat |- _ => destruct a
-         end.
-(* [models]: unfolds the model side *)
-Ltac gen_fs models :=
-  intros; open_records;
-  first [ reflexivity
-        | repeat autounfold with sidgenfs; models; unfold tv, tq, tm; cbn [fx fy fz fqw fqx fqy fqz f00 f01 f02 f10 f11 f12 f20 f21 f22];
-          cbv beta iota zeta; first [ fcong | cbv beta iota zeta delta [negb andb orb]; fsolve ] ].
-
-(* common.AlmostEqual *)
-Lemma gen_AlmostEqual_eq : forall x y tol, GeneratedFS.AlmostEqual x y tol = almost_equal x y tol.
-Proof. gen_fs ltac:(unfold almost_equal). Qed.
-
-(* gonum r3 (v0.15.1 in go.mod) *)
-Lemma gen_r3_Add_eq : forall p q, GeneratedFS.r3_Add (tv p) (tv q) = tv (fadd p q).
-Proof. gen_fs ltac:(unfold fadd). Qed.
-Lemma gen_r3_Sub_eq : forall p q, GeneratedFS.r3_Sub (tv p) (tv q) = tv (fsub p q).
-Proof. gen_fs ltac:(unfold fsub). Qed.
-Lemma gen_r3_Scale_eq : forall f p, GeneratedFS.r3_Scale f (tv p) = tv (fscale f p).
-Proof. gen_fs ltac:(unfold fscale). Qed.
-Lemma gen_r3_Dot_eq : forall p q, GeneratedFS.r3_Dot (tv p) (tv q) = fdot p q.
-Proof. gen_fs ltac:(unfold fdot). Qed.
-Lemma gen_r3_Cross_eq : forall p q, GeneratedFS.r3_Cross (tv p) (tv q) = tv (fcross p q).
-Proof. gen_fs ltac:(unfold fcross). Qed.
-Lemma gen_r3_Norm_eq : forall M p, GeneratedFS.r3_Norm M (tv p) = fnorm (m_hypot M) p.
-Proof. gen_fs ltac:(unfold fnorm). Qed.
-Lemma gen_r3_Unit_eq : forall M p, GeneratedFS.r3_Unit M (tv p) = tv (funit (m_hypot M) p).
-Proof. gen_fs ltac:(unfold funit, fnanv, fscale, fnorm). Qed.
-Lemma gen_r3_Cos_eq : forall M p q, GeneratedFS.r3_Cos M (tv p) (tv q) = fcosv (m_hypot M) p q.
-Proof. gen_fs ltac:(unfold fcosv, fdot, fnorm). Qed.
-
-(* vector3.go *)
-Lemma gen_NewVectorFromPoints_eq : forall p q, GeneratedFS.NewVectorFromPoints (tv p) (tv q) = tv (fvec_from_points p q).
-Proof. gen_fs ltac:(unfold fvec_from_points, fsub). Qed.
-Lemma gen_Vector3_Add_eq : forall a b, GeneratedFS.Vector3_Add (tv a) (tv b) = tv (fadd a b).
-Proof. gen_fs ltac:(unfold fadd). Qed.
-Lemma gen_Vector3_Sub_eq : forall a b, GeneratedFS.Vector3_Sub (tv a) (tv b) = tv (fsub a b).
-Proof. gen_fs ltac:(unfold fsub). Qed.
-Lemma gen_Vector3_Scale_eq : forall a f, GeneratedFS.Vector3_Scale (tv a) f = tv (fscale f a).
-Proof. gen_fs ltac:(unfold fscale). Qed.
-Lemma gen_Vector3_Dot_eq : forall a b, GeneratedFS.Vector3_Dot (tv a) (tv b) = fdot a b.
-Proof. gen_fs ltac:(unfold fdot). Qed.
-Lemma gen_Vector3_Cross_eq : forall a b, GeneratedFS.Vector3_Cross (tv a) (tv b) = tv (fcross a b).
-Proof. gen_fs ltac:(unfold fcross). Qed.
-Lemma gen_Vector3_Norm_eq : forall M a, GeneratedFS.Vector3_Norm M (tv a) = fnorm (m_hypot M) a.
-Proof. gen_fs ltac:(unfold fnorm). Qed.
-Lemma gen_Vector3_L1Norm_eq : forall a, GeneratedFS.Vector3_L1Norm (tv a) = fl1norm a.
-Proof. gen_fs ltac:(unfold fl1norm). Qed.
-Lemma gen_Vector3_Unit_eq : forall M a, GeneratedFS.Vector3_Unit M (tv a) = tv (funit (m_hypot M) a).
-Proof. gen_fs ltac:(unfold funit, fnanv, fscale, fnorm). Qed.
-Lemma gen_Vector3_Cos_eq : forall M a b, GeneratedFS.Vector3_Cos M (tv a) (tv b) = fcosv (m_hypot M) a b.
-Proof. gen_fs ltac:(unfold fcosv, fdot, fnorm). Qed.
-
-(* matrix3.go *)
-Lemma gen_NewMatrix3_eq : forall a b c d e f g h i, GeneratedFS.NewMatrix3 a b c d e f g h i = tm (FM a b c d e f g h i).
-Proof. gen_fs ltac:(idtac). Qed.
-Lemma gen_NewUnitMatrix3_eq : GeneratedFS.NewUnitMatrix3 = tm fmunit.
-Proof. gen_fs ltac:(unfold fmunit). Qed.
-Lemma gen_Matrix3_Mul_eq : forall a b, GeneratedFS.Matrix3_Mul (tm a) (tm b) = tm (fmmul a b).
-Proof. gen_fs ltac:(unfold fmmul). Qed.
-Lemma gen_Matrix3_MulVec_eq : forall a v, GeneratedFS.Matrix3_MulVec (tm a) (tv v) = tv (fmulvec a v).
-Proof. gen_fs ltac:(unfold fmulvec). Qed.
-
-(* point3.go *)
-Lemma gen_Point3_IsClose_eq : forall p q eps, GeneratedFS.Point3_IsClose (tv p) (tv q) eps = fis_close p q eps.
-Proof. gen_fs ltac:(unfold fis_close, almost_equal). Qed.
-Lemma gen_Point3_Translate_eq : forall p a, GeneratedFS.Point3_Translate (tv p) (tv a) = tv (ftranslate p a).
-Proof. gen_fs ltac:(unfold ftranslate, fadd). Qed.
-Lemma gen_Point3_DistancePoint_eq : forall M p q, GeneratedFS.Point3_DistancePoint M (tv p) (tv q) = fdistance (m_hypot M) p q.
-Proof. gen_fs ltac:(unfold fdistance, fvec_from_points, fsub, fnorm). Qed.
-
-(* line3.go: a line is (start point, direction) *)
-Lemma gen_NewLineFromPoints_eq : forall s e, GeneratedFS.NewLineFromPoints (tv s) (tv e) = (tv s, tv (fvec_from_points s e)).
-Proof. gen_fs ltac:(unfold fvec_from_points, fsub). Qed.
-Lemma gen_Line3_ToPoint_eq : forall p d t, GeneratedFS.Line3_ToPoint (tv p, tv d) t = tv (fline_to_point p d t).
-Proof. gen_fs ltac:(unfold fline_to_point, ftranslate, fadd, fscale). Qed.
-Lemma gen_Line3_End_eq : forall p d, GeneratedFS.Line3_End (tv p, tv d) = tv (fline_end p d).
-Proof. gen_fs ltac:(unfold fline_end, ftranslate, fadd). Qed.
-Lemma gen_Line3_Start_eq : forall p d, GeneratedFS.Line3_Start (tv p, tv d) = tv p.
-Proof. gen_fs ltac:(idtac). Qed.
-
-(* quat.go *)
-Lemma gen_QuatFromAxisAngle_eq : forall M axis angle,
-  GeneratedFS.QuatFromAxisAngle M (tv axis) angle = tq (fquat_axis_angle (m_hypot M) (m_sin M) (m_cos M) axis angle).
-Proof. gen_fs ltac:(unfold fquat_axis_angle, funit, fnanv, fscale, fnorm, c_half). Qed.
-(* RotateBetweenVector: the callees are rewritten into the models (lemmas above), then the two conditions are decided *)
-Lemma gen_RotateBetweenVector_eq : forall M a b,
-  GeneratedFS.RotateBetweenVector M (tv a) (tv b) = tq (frotate_between (m_hypot M) (m_sin M) (m_cos M) a b).
-Proof.
-  intros M a b. unfold GeneratedFS.RotateBetweenVector. cbv zeta.
-  rewrite !gen_Vector3_Unit_eq, !gen_Vector3_Cos_eq, !gen_Vector3_Cross_eq.
-  change ((0x0p+0)%float, (0x0p+0)%float, (0x1p+0)%float) with (tv (FV 0 0 1)).
-  change ((0x1p+0)%float, (0x0p+0)%float, (0x0p+0)%float) with (tv (FV 1 0 0)).
-  rewrite !gen_Vector3_Cross_eq, ?gen_Vector3_Norm_eq.
-  unfold frotate_between. cbv zeta.
-  change (0x1.b7cdfd9d7bdbbp-34)%float with c_minima.
-  destruct (fcosv (m_hypot M) (funit (m_hypot M) a) (funit (m_hypot M) b) + 1 <? c_minima).
-  - destruct (fnorm (m_hypot M) (fcross (funit (m_hypot M) a) (FV 0 0 1)) <? c_minima); rewrite gen_QuatFromAxisAngle_eq; reflexivity.
-  - reflexivity.
-Qed.
+(* GenEqFSpatial.v — umbrella, kept for backward compatibility: the lemmas live in one file per Go source file. Import the narrow file, not this one. *)
+From SID Require Export GenEqFSTac GenEqFSCommon GenEqFSR3 GenEqFSVector GenEqFSMatrix GenEqFSPoint GenEqFSLine GenEqFSQuat.
